@@ -21,11 +21,49 @@ type Goroutine struct {
 	exited       chan struct{}
 	held         map[interface{}]int
 	timerOnly    bool
+	vc           []int
 }
 
 type killed struct{}
 
+const maxGor = 18
+
+func vcJoin(dst, src []int) []int {
+	if src == nil {
+		return dst
+	}
+	if dst == nil {
+		return append([]int{}, src...)
+	}
+	for i := range dst {
+		if i < len(src) && src[i] > dst[i] {
+			dst[i] = src[i]
+		}
+	}
+	return dst
+}
+
+// release: the current goroutine publishes its clock into obj's clock (unlock, send, done, exit)
+func (m *Machine) vcRelease(obj *[]int) {
+	g := m.path.cur
+	if g == nil || g.vc == nil {
+		return
+	}
+	*obj = vcJoin(*obj, g.vc)
+	g.vc[g.id]++
+}
+
+// acquire: the current goroutine learns obj's clock (lock, receive, wait)
+func (m *Machine) vcAcquire(obj []int) {
+	g := m.path.cur
+	if g == nil || g.vc == nil {
+		return
+	}
+	g.vc = vcJoin(g.vc, obj)
+}
+
 type ChanObj struct {
+	vc     []int
 	cap    int
 	buf    []Value
 	closed bool
@@ -41,7 +79,8 @@ type ChanObj struct {
 
 func (m *Machine) runMain(fn *ssa.Function) {
 	p := m.path
-	g := &Goroutine{id: 0, resume: make(chan struct{}, 1), held: map[interface{}]int{}}
+	g := &Goroutine{id: 0, resume: make(chan struct{}, 1), held: map[interface{}]int{}, vc: make([]int, maxGor)}
+	g.vc[0] = 1
 	p.gor = []*Goroutine{g}
 	p.cur = g
 	tval := m.newHarnessT(fn)
@@ -96,6 +135,14 @@ func (m *Machine) spawn(body func()) *Goroutine {
 		panic(abortPath{"unwind", "more than 16 goroutines"})
 	}
 	g := &Goroutine{id: len(p.gor), resume: make(chan struct{}, 1), exited: make(chan struct{}), held: map[interface{}]int{}}
+	if parent := p.cur; parent != nil && parent.vc != nil {
+		g.vc = append([]int{}, parent.vc...)
+		g.vc[g.id] = 1
+		parent.vc[parent.id]++
+	} else {
+		g.vc = make([]int, maxGor)
+		g.vc[g.id] = 1
+	}
 	p.gor = append(p.gor, g)
 	go func() {
 		defer close(g.exited)
@@ -320,6 +367,7 @@ func (m *Machine) chanSend(c *ChanObj, v Value) {
 				m.goPanic("send on closed channel")
 			}
 		}
+		m.vcRelease(&c.vc)
 		c.buf = append(c.buf, v)
 		return
 	}
@@ -330,6 +378,7 @@ func (m *Machine) chanSend(c *ChanObj, v Value) {
 			m.goPanic("send on closed channel")
 		}
 	}
+	m.vcRelease(&c.vc)
 	c.handoff = append(c.handoff, v)
 }
 
@@ -359,6 +408,7 @@ func (m *Machine) chanRecv(c *ChanObj, commaOk bool) Value {
 }
 
 func (m *Machine) chanTake(c *ChanObj) (Value, bool, bool) {
+	m.vcAcquire(c.vc)
 	switch {
 	case len(c.handoff) > 0:
 		v := c.handoff[0]
@@ -393,6 +443,7 @@ func (m *Machine) chanClose(c *ChanObj) {
 	if c.closed {
 		m.goPanic("close of closed channel")
 	}
+	m.vcRelease(&c.vc)
 	c.closed = true
 }
 
@@ -487,11 +538,101 @@ func (m *Machine) selectStmt(fr *Frame, x *ssa.Select) Value {
 	return mk(pick, ok, pick, v)
 }
 
-// ---------------- race monitor hooks (vector clocks are not implemented; see DESIGN) ----------------
+// ---------------- race monitor (FastTrack-style vector clocks; enabled by //zz:opt race=1) ----------------
+
+type accRd struct{ g, clk int }
+type accRec struct {
+	hasW      bool
+	wG, wClk  int
+	wFn       string
+	reads     []accRd
+}
+
+type RaceReport struct {
+	Site string
+	A, B string
+	Kind string
+}
+
+func (m *Machine) raceOn() bool { return m.cfg.Opts["race"] == "1" && len(m.path.gor) > 1 && m.path.atomicDepth == 0 }
 
 func (m *Machine) noteWrite(c *Cell) {
 	if m.path.mergeDepth > 0 && c.ID <= m.path.mergeEpoch {
 		panic(mergeImpure{})
 	}
+	if !m.raceOn() {
+		return
+	}
+	g := m.path.cur
+	rec := c.acc
+	if rec == nil {
+		rec = &accRec{}
+		c.acc = rec
+	}
+	if rec.hasW && rec.wG != g.id && g.vc[rec.wG] < rec.wClk {
+		m.reportRace(c, "write-write", rec.wFn)
+	}
+	for _, r := range rec.reads {
+		if r.g != g.id && g.vc[r.g] < r.clk {
+			m.reportRace(c, "read-write", "")
+		}
+	}
+	rec.hasW, rec.wG, rec.wClk, rec.wFn = true, g.id, g.vc[g.id], m.curFn()
+	rec.reads = rec.reads[:0]
 }
-func (m *Machine) noteRead(c *Cell) {}
+
+func (m *Machine) noteRead(c *Cell) {
+	if !m.raceOn() {
+		return
+	}
+	g := m.path.cur
+	rec := c.acc
+	if rec == nil {
+		rec = &accRec{}
+		c.acc = rec
+	}
+	if rec.hasW && rec.wG != g.id && g.vc[rec.wG] < rec.wClk {
+		m.reportRace(c, "write-read", rec.wFn)
+	}
+	for i := range rec.reads {
+		if rec.reads[i].g == g.id {
+			rec.reads[i].clk = g.vc[g.id]
+			return
+		}
+	}
+	rec.reads = append(rec.reads, accRd{g.id, g.vc[g.id]})
+}
+
+func (m *Machine) reportRace(c *Cell, kind, other string) {
+	site := "?"
+	if c.Site != nil {
+		site = c.Site.Parent().String() + ": " + c.Site.String()
+		if m.ex.addSharedSite(c.Site) {
+			// newly discovered: the exploration is repeated with scheduling points at this site
+		}
+	}
+	fn := m.curFn()
+	key := fn // one report per racing function
+	if m.path.raceSeen == nil {
+		m.path.raceSeen = map[string]bool{}
+	}
+	if m.path.raceSeen[key] {
+		return
+	}
+	m.path.raceSeen[key] = true
+	m.ex.addRace(RaceReport{Site: site, A: fn, B: other, Kind: kind})
+	if m.cfg.Opts["racereport"] == "1" {
+		m.recordViolation(m.tt.T, "data race on "+site, "race", m.stackNames())
+	}
+}
+
+// sharedYield offers a context switch before an access to a cell whose allocation site is known to be
+// accessed concurrently (discovered by the monitor in an earlier pass).
+func (m *Machine) sharedYield(c *Cell) {
+	if c == nil || c.Site == nil || len(m.path.gor) <= 1 || m.cfg.Sched == 0 {
+		return
+	}
+	if m.ex.isShared(c.Site) {
+		m.yieldPoint("shared access")
+	}
+}
